@@ -247,6 +247,10 @@ func runC12(b *runner.Batch) {
 	do(e.opAddRecord("bb.com", tTXT, "rec-3"), []int{1}) // duplicate (after 16: refused for the count)
 	do(e.opSetRecord("bb.com", tTXT, 5, "replaced"), []int{1})
 	do(e.opSetRecord("bb.com", tTXT, 16, "miss"), []int{1})
+	// the last and the first slot of the full list are slots like the others (seeded change C12-10: an index guard
+	// comparing with the largest id instead of the count)
+	do(e.opSetRecord("bb.com", tTXT, 15, "last-slot"), []int{1})
+	do(e.opSetRecord("bb.com", tTXT, 14, "last-but-one"), []int{1})
 	do(e.opDeleteRecords("bb.com", tSOA), []int{1})
 	do(e.opAddRecord("bb.com", tSOA, "x"), []int{1})
 	do(e.opAddRecord("bb.com", 0, "x"), []int{1})
